@@ -816,6 +816,7 @@ pub fn run(ctx: &mut Ctx) {
     std::fs::create_dir_all(format!("{}/files", ctx.dir)).ok();
     if let Some(case) = ctx.replay_only.clone() {
         if super::c04_span::replay(ctx, &case) { return; }
+        if super::c04_join::replay(ctx, &case) { return; }
         let sub: u64 = case.get(1).and_then(|s| s.parse().ok()).unwrap_or(0);
         match case.first().map(|s| s.as_str()) {
             Some("bam") => bam_case(ctx, sub),
@@ -839,6 +840,7 @@ pub fn run(ctx: &mut Ctx) {
         synthetic(ctx, ctx.seed.wrapping_mul(1_000_081).wrapping_add(it));
     }
     super::c04_span::run(ctx);
+    super::c04_join::run(ctx);
 }
 
 fn corpus(ctx: &mut Ctx) {
